@@ -47,6 +47,7 @@ def rules_c17(ctx):
     # the Elias-Fano constructor writes outside its bit vector if a sentinel-keyed segment is coded (universe wraps to 0)
     out += S.rule_upper_level_sentinel(ctx, 'eliasfano')
     out += rule_back_guard(ctx)
+    out += rule_iter_invalidation(ctx)
     return out
 
 
@@ -108,3 +109,33 @@ def _subs(t):
         for x in t:
             if isinstance(x, tuple):
                 yield from _subs(x)
+
+
+def rule_iter_invalidation(ctx):
+    """no iterator into a vector is used after an operation that may reallocate it (see rules/iterinv.py)"""
+    import iterinv
+    from ir import fmt_term
+    obs = []
+    n_fns = n_iters = n_sites = 0
+    for u in ctx.all_units():
+        for f in u.functions.values():
+            if not (f.tname.startswith('pgm::') or f.file.endswith('cpgm.cpp')) or not f.cfg:
+                continue
+            iv = iterinv.iterator_vars(f)
+            st = iterinv.invalidating_sites(f)
+            if not iv and not st:
+                continue
+            n_fns += 1
+            n_iters += len(iv)
+            n_sites += len(st)
+            res = iterinv.analyse(f)
+            req = 'no iterator into a vector is used after an operation that may reallocate that vector (directly, or through a closure handed to the same call as a closure that grows it)'
+            if res:
+                (use, name, X, site, kind) = res[0]
+                where = f"`{name}` (an iterator into `{fmt_term(X)[:40]}`) " + (f"is used at line {f.n(use)['l']} after `{fmt_term(f.term(site, inline=False))[:50]}` at line {f.n(site)['l']}" if kind == 'direct'
+                        else f"is held by a closure passed, at line {f.n(use)['l']}, together with a closure that appends to the same vector")
+                obs.append(Ob('ITER-INVALIDATION', f, use, req, where, VIOLATED, arm=f.name + ':' + name))
+            elif iv and st:
+                obs.append(Ob('ITER-INVALIDATION', f, 0, req, f"{len(iv)} iterator variable(s), {len(st)} growing/shrinking call(s): no use after invalidation", OK, arm=f.name))
+    ctx.stats['iter_invalidation'] = {'functions': n_fns, 'iterator_variables': n_iters, 'invalidating_sites': n_sites}
+    return obs
